@@ -16,13 +16,27 @@
 (* rectangles, and, when the only refusals so far happened inside this very call, each  *)
 (* permitted pixel is either untouched or has its normal value (work was skipped, not   *)
 (* done wrongly).                                                                       *)
+(*                                                                                      *)
+(* Two kinds of earlier refusals are told apart.  A refusal inside a constructor or a   *)
+(* status-returning call changes what the rest of the execution works on (an object is  *)
+(* missing, a setter did not take effect): "tainted".  A refusal inside a void DRAWING  *)
+(* call (an End event that carries pixels) may only have left work undone in that       *)
+(* call's destination - a drawing call writes nothing but permitted destination pixels, *)
+(* so every other object is exactly what it is in the fault-free run: "soft".  After    *)
+(* soft refusals only                                                                   *)
+(*   - a later call without refusals still returns its normal result, and               *)
+(*   - a later drawing call marked indep = 1 by the generator (its destination was not  *)
+(*     written by any earlier call that could fail) must draw exactly what the          *)
+(*     fault-free run drew: the images, the glyph cache, the gradient ... that the      *)
+(*     interrupted call used are "safe to use afterwards".                              *)
 EXTENDS Alloc, TraceIO
 
 VARIABLES l,
-          tainted,   \* some allocation was refused earlier in this execution (state may differ from the fault-free run)
+          tainted,   \* an allocation was refused earlier inside a constructor / status call (state may differ from the fault-free run)
+          soft,      \* an allocation was refused earlier inside a void drawing call (only that call's destination may differ)
           curKind
 
-tvars == <<live, call, made, failed, l, tainted, curKind>>
+tvars == <<live, call, made, failed, l, tainted, soft, curKind>>
 
 Ev == TraceLog[l]
 Is(e) == l <= TraceLen /\ TraceLog[l].e = e
@@ -30,29 +44,34 @@ Adv == l' = l + 1
 
 TReset == /\ Is("Reset") /\ call = ""
           /\ live' = {} /\ call' = "" /\ made' = {} /\ failed' = 0
-          /\ tainted' = FALSE /\ curKind' = "" /\ Adv
+          /\ tainted' = FALSE /\ soft' = FALSE /\ curKind' = "" /\ Adv
 
-TBegin == /\ Is("Begin") /\ Begin(Ev.call) /\ curKind' = Ev.kind /\ UNCHANGED tainted /\ Adv
+TBegin == /\ Is("Begin") /\ Begin(Ev.call) /\ curKind' = Ev.kind /\ UNCHANGED <<tainted, soft>> /\ Adv
 
 TMalloc == /\ Is("Malloc")
            /\ IF Ev.ok THEN MallocOk(Ev.addr) ELSE MallocRefused
-           /\ UNCHANGED <<tainted, curKind>> /\ Adv
+           /\ UNCHANGED <<tainted, soft, curKind>> /\ Adv
 
 TRealloc == /\ Is("Realloc")
-            /\ IF Ev.ok THEN ReallocOk(IF Ev.old = <<0, 0, 0>> THEN "null" ELSE Ev.old, Ev.addr) ELSE MallocRefused
-            /\ UNCHANGED <<tainted, curKind>> /\ Adv
+            /\ IF ~Ev.ok THEN MallocRefused
+               ELSE IF Ev.old = <<0, 0, 0>> THEN MallocOk(Ev.addr) ELSE ReallocOk(Ev.old, Ev.addr)
+            /\ UNCHANGED <<tainted, soft, curKind>> /\ Adv
 
-TFree == /\ Is("Free") /\ FreeOk(Ev.addr) /\ UNCHANGED <<tainted, curKind>> /\ Adv
+TFree == /\ Is("Free") /\ FreeOk(Ev.addr) /\ UNCHANGED <<tainted, soft, curKind>> /\ Adv
 
 InRects(x, y, rs) == \E k \in 0..((Len(rs) \div 4) - 1) :
                         rs[4 * k + 1] <= x /\ x < rs[4 * k + 3] /\ rs[4 * k + 2] <= y /\ y < rs[4 * k + 4]
+
+Indep(ev) == Has(ev, "indep") /\ ev.indep = 1
+\* the state this drawing call works on is that of the fault-free run
+Comparable(ev) == ~tainted /\ (~soft \/ Indep(ev))
 
 DrawOK(ev) ==
     \A i \in 1..(ev.w * ev.h) :
         LET x == (i - 1) % ev.w   y == (i - 1) \div ev.w IN
         IF ~InRects(x, y, ev.allowed)
         THEN ev.after[i] = ev.before[i]                              \* frame condition, always
-        ELSE (~tainted) => (ev.after[i] = ev.okafter[i] \/ (failed > 0 /\ ev.after[i] = ev.before[i]))
+        ELSE Comparable(ev) => (ev.after[i] = ev.okafter[i] \/ (failed > 0 /\ ev.after[i] = ev.before[i]))
 
 TEnd == /\ Is("End")
         /\ End(curKind, Ev.ret)
@@ -61,13 +80,14 @@ TEnd == /\ Is("End")
         \* "= TRUE": evaluate as a state predicate; in action mode TLC would split every disjunction
         \* under the quantifier into separate successor computations (exponential)
         /\ (Has(Ev, "after") => DrawOK(Ev)) = TRUE
-        /\ tainted' = (tainted \/ failed > 0)
+        /\ tainted' = (tainted \/ (failed > 0 /\ ~Has(Ev, "after")))
+        /\ soft' = (soft \/ (failed > 0 /\ Has(Ev, "after")))
         /\ curKind' = "" /\ Adv
 
 TFinal == /\ Is("Final") /\ call = "" /\ NothingLive
-          /\ UNCHANGED <<live, call, made, failed, tainted, curKind>> /\ Adv
+          /\ UNCHANGED <<live, call, made, failed, tainted, soft, curKind>> /\ Adv
 
-TInit == AllocInit /\ l = 1 /\ tainted = FALSE /\ curKind = ""
+TInit == AllocInit /\ l = 1 /\ tainted = FALSE /\ soft = FALSE /\ curKind = ""
 TNext == TReset \/ TBegin \/ TMalloc \/ TRealloc \/ TFree \/ TEnd \/ TFinal
 TSpec == TInit /\ [][TNext]_tvars
 =============================================================================
